@@ -48,7 +48,9 @@ def describe() -> dict:
             "invalid keys incl. newline / non-UTF-8 / unicode names, hidden files and hidden "
             "empty directories at any depth, empty directories, contents with leading/trailing "
             "whitespace, empty files, invalid UTF-8) loaded 2-4 times with seeded listing "
-            "orders by read_from_directory and once through main.execute. distinct = distinct "
+            "orders by read_from_directory and once through main.execute; the directory itself sits at "
+            "a plain path, below hidden ancestors, behind a symlink, under blanks/unicode, or is "
+            "named relatively / with '..' components. distinct = distinct "
             "tree shapes (multiset of entry kinds x depth x validity class) that contain at "
             "least one non-hidden file."
         ),
@@ -123,7 +125,9 @@ def gen_plan(seed: int, run: int, tier: str) -> dict:
     models = [m.id for m in repo.small_common()]
     return {"engine": "snippets", "seed": seed, "run": run, "tree": tree,
             "orders": rng.choice([2, 2, 3, 4]), "target": target, "model": rng.choice(models),
-            "with_required": rng.random() < 0.6, "full_run": run % 3 == 0}
+            "with_required": rng.random() < 0.6, "full_run": run % 3 == 0,
+            "root": rng.choice(["plain", "plain", "plain", "hidden_ancestor", "hidden_ancestor_deep",
+                                "space_unicode", "dotdot", "relative", "relative_dotdot", "symlink"])}
 
 
 def _names(message: str, key: str) -> bool:
@@ -197,8 +201,36 @@ def execute(plan: dict) -> dict:
     sb = kernel.Sandbox()
     h = hashlib.sha256()
     try:
-        sdir = sb.path("snippets", "s")
+        # where the snippets directory lives and how it is named on the command line
+        root_variant = plan.get("root", "plain")
+        cwd0 = os.getcwd()
+        chdir_to = None
+        if root_variant == "hidden_ancestor":
+            sdir = sdir_arg = sb.path("snippets", ".hidden", "s")
+        elif root_variant == "hidden_ancestor_deep":
+            sdir = sdir_arg = sb.path("snippets", ".cache", "proj", "s")
+        elif root_variant == "space_unicode":
+            sdir = sdir_arg = sb.path("snippets", "with space", "\u00fcn\u00ef", "s")
+        elif root_variant == "dotdot":
+            sdir = sb.path("snippets", "s")
+            os.makedirs(sb.path("snippets", "x"))
+            sdir_arg = sb.path("snippets", "x", "..", "s")
+        elif root_variant == "relative":
+            sdir = sb.path("snippets", "s")
+            sdir_arg, chdir_to = "s", sb.path("snippets")
+        elif root_variant == "relative_dotdot":
+            sdir = sb.path("snippets", "s")
+            os.makedirs(sb.path("snippets", "x"))
+            sdir_arg, chdir_to = os.path.join("..", "s"), sb.path("snippets", "x")
+        elif root_variant == "symlink":
+            sdir = sb.path("snippets", "real")
+            sdir_arg = sb.path("snippets", "link")
+        else:
+            sdir = sdir_arg = sb.path("snippets", "s")
         os.makedirs(sdir)
+        if root_variant == "symlink":
+            os.symlink(sdir, sdir_arg)
+        stats["probe:root_" + root_variant] = 1
         try:
             _write_tree(sdir, tree, extra)
         except (OSError, ValueError) as error:
@@ -211,7 +243,12 @@ def execute(plan: dict) -> dict:
             box: Dict[str, Any] = {}
 
             def fn() -> None:
-                box["r"] = si.read_from_directory(pathlib.Path(sdir))
+                if chdir_to is not None:
+                    os.chdir(chdir_to)
+                try:
+                    box["r"] = si.read_from_directory(pathlib.Path(sdir_arg))
+                finally:
+                    os.chdir(cwd0)
 
             actor = sim.spawn("load", fn)
             sim.run()
@@ -286,7 +323,13 @@ def execute(plan: dict) -> dict:
             box2: Dict[str, repo.RunResult] = {}
 
             def fn2() -> None:
-                box2["res"] = repo.run_generator(model_path, target, sdir, out_dir, cache=False)
+                if chdir_to is not None:
+                    os.chdir(chdir_to)
+                try:
+                    box2["res"] = repo.run_generator(model_path, target, sdir_arg, out_dir,
+                                                     cache=False)
+                finally:
+                    os.chdir(cwd0)
 
             actor = sim.spawn("run", fn2)
             sim.run()
@@ -375,6 +418,10 @@ def reductions(plan: dict) -> Iterator[dict]:
     if plan["orders"] > 1:
         p = copy.deepcopy(plan)
         p["orders"] = 1
+        yield p
+    if plan.get("root", "plain") != "plain":
+        p = copy.deepcopy(plan)
+        p["root"] = "plain"
         yield p
     for i, e in enumerate(tree):
         if e["kind"] == "file" and e.get("hex") not in ("", "78"):
